@@ -17,11 +17,19 @@ Op mkOp(const std::string &kind, std::initializer_list<std::string> a) {
     return o;
 }
 std::string S(long long v) { return std::to_string(v); }
+} // namespace
+
+// rapidcheck scales inRange (and everything built on it) with the size parameter;
+// leaf choices here must be uniform at every size, so they are pinned to the nominal size.
+Gen<int> uni(int lo, int hi) { return gen::resize(kNominalSize, gen::inRange(lo, hi)); }
+Gen<int> wel(std::initializer_list<std::pair<std::size_t, int>> pairs) { return gen::resize(kNominalSize, gen::weightedElement<int>(pairs)); }
+
+namespace {
 
 // raw vertex argument: small values dominate (they are reduced modulo the current size)
-Gen<int> gVtx() { return gen::weightedOneOf<int>({{8, gen::inRange(0, 6)}, {2, gen::inRange(0, 40)}}); }
+Gen<int> gVtx() { return gen::resize(kNominalSize, gen::weightedOneOf<int>({{8, uni(0, 6)}, {2, uni(0, 40)}})); }
 // pair selection mode: 0 raw, 1 existing edge (orientation by parity of b), 2 existing edge flipped, 3 self-loop
-Gen<int> gMode() { return gen::weightedElement<int>({{6, 0}, {3, 1}, {1, 3}, {1, 2}}); }
+Gen<int> gMode() { return wel({{6, 0}, {3, 1}, {1, 3}, {1, 2}}); }
 
 std::string exactWeight(int k) {
     // k/8 printed exactly (at most three decimals)
@@ -40,14 +48,14 @@ std::string roundedWeight(int sign, int e, int frac) {
 
 Gen<std::string> gWeight(bool exact, bool nonneg = false) {
     if (exact)
-        return gen::map(gen::weightedOneOf<int>({{6, gen::inRange(-40, 41)}, {1, gen::just(0)}, {3, gen::inRange(-65536, 65537)}}),
+        return gen::map(gen::resize(kNominalSize, gen::weightedOneOf<int>({{6, uni(-40, 41)}, {1, gen::just(0)}, {3, uni(-65536, 65537)}})),
                         [nonneg](int k) { return exactWeight(nonneg && k < 0 ? -k : k); });
-    return gen::map(gen::tuple(gen::inRange(0, 2), gen::inRange(-10, 10), gen::inRange(0, 1048576)), [nonneg](const std::tuple<int, int, int> &t) {
+    return gen::map(gen::tuple(uni(0, 2), uni(-10, 10), uni(0, 1048576)), [nonneg](const std::tuple<int, int, int> &t) {
         return roundedWeight(nonneg ? 0 : std::get<0>(t), std::get<1>(t), std::get<2>(t));
     });
 }
 
-Gen<int> gMult() { return gen::weightedElement<int>({{2, 0}, {5, 1}, {4, 2}, {3, 3}, {1, 7}, {1, 1000}}); }
+Gen<int> gMult() { return wel({{2, 0}, {5, 1}, {4, 2}, {3, 3}, {1, 7}, {1, 1000}}); }
 
 struct HistCfg {
     char fam;       // L, M, W
@@ -58,7 +66,7 @@ struct HistCfg {
 };
 
 Gen<Op> gOpOfKind(const std::string &kind, const HistCfg &h) {
-    auto force = gen::map(gen::inRange(0, 100), [h](int r) { return r < h.forcePct ? 1 : 0; });
+    auto force = gen::map(uni(0, 100), [h](int r) { return r < h.forcePct ? 1 : 0; });
     if (kind == "add") {
         if (h.fam == 'W')
             return gen::map(gen::tuple(gVtx(), gVtx(), gMode(), gWeight(h.exact), force),
@@ -70,7 +78,7 @@ Gen<Op> gOpOfKind(const std::string &kind, const HistCfg &h) {
                 return mkOp("add", {S(std::get<0>(t)), S(std::get<1>(t)), S(std::get<2>(t)), S(std::get<3>(t)), S(std::get<4>(t))});
             });
         // L: bit1 of the flags selects the overload without label
-        return gen::map(gen::tuple(gVtx(), gVtx(), gMode(), gen::inRange(0, 12), force, gen::weightedElement<int>({{3, 0}, {1, 2}})),
+        return gen::map(gen::tuple(gVtx(), gVtx(), gMode(), uni(0, 12), force, wel({{3, 0}, {1, 2}})),
                         [](const std::tuple<int, int, int, int, int, int> &t) {
                             return mkOp("add", {S(std::get<0>(t)), S(std::get<1>(t)), S(std::get<2>(t)), S(std::get<3>(t)),
                                                 S(std::get<4>(t) | std::get<5>(t))});
@@ -85,7 +93,7 @@ Gen<Op> gOpOfKind(const std::string &kind, const HistCfg &h) {
             return gen::map(gen::tuple(gVtx(), gVtx(), gMode(), gMult()), [kind](const std::tuple<int, int, int, int> &t) {
                 return mkOp(kind, {S(std::get<0>(t)), S(std::get<1>(t)), S(std::get<2>(t)), S(std::get<3>(t)), "0"});
             });
-        return gen::map(gen::tuple(gVtx(), gVtx(), gMode(), gen::inRange(0, 12), gen::weightedElement<int>({{3, 0}, {1, 2}})),
+        return gen::map(gen::tuple(gVtx(), gVtx(), gMode(), uni(0, 12), wel({{3, 0}, {1, 2}})),
                         [](const std::tuple<int, int, int, int, int> &t) {
                             return mkOp("recip", {S(std::get<0>(t)), S(std::get<1>(t)), S(std::get<2>(t)), S(std::get<3>(t)), S(std::get<4>(t))});
                         });
@@ -107,22 +115,22 @@ Gen<Op> gOpOfKind(const std::string &kind, const HistCfg &h) {
             return mkOp("setw", {S(std::get<0>(t)), S(std::get<1>(t)), S(std::get<2>(t)), std::get<3>(t)});
         });
     if (kind == "setl")
-        return gen::map(gen::tuple(gVtx(), gVtx(), gMode(), gen::inRange(0, 12), gen::weightedElement<int>({{3, 0}, {1, 1}})),
+        return gen::map(gen::tuple(gVtx(), gVtx(), gMode(), uni(0, 12), wel({{3, 0}, {1, 1}})),
                         [](const std::tuple<int, int, int, int, int> &t) {
                             return mkOp("setl", {S(std::get<0>(t)), S(std::get<1>(t)), S(std::get<2>(t)), S(std::get<3>(t)), S(std::get<4>(t))});
                         });
     if (kind == "rmvtx")
-        return gen::map(gen::tuple(gVtx(), gen::weightedElement<int>({{1, 0}, {1, 1}})),
+        return gen::map(gen::tuple(gVtx(), wel({{1, 0}, {1, 1}})),
                         [](const std::tuple<int, int> &t) { return mkOp("rmvtx", {S(std::get<0>(t)), S(std::get<1>(t))}); });
     if (kind == "resize")
-        return gen::map(gen::inRange(0, 4), [](int k) { return mkOp("resize", {S(k)}); });
+        return gen::map(uni(0, 4), [](int k) { return mkOp("resize", {S(k)}); });
     if (kind == "rmloops" || kind == "clear" || kind == "dedup")
         return gen::just(mkOp(kind, {}));
     throw std::runtime_error("unknown op kind in mix: " + kind);
 }
 
 Gen<int> gN0() {
-    return gen::weightedElement<int>({{5, 0}, {10, 1}, {18, 2}, {19, 3}, {18, 4}, {8, 5}, {8, 6}, {7, 7}, {7, 8}});
+    return wel({{5, 0}, {10, 1}, {18, 2}, {19, 3}, {18, 4}, {8, 5}, {8, 6}, {7, 7}, {7, 8}});
 }
 
 } // namespace
@@ -144,7 +152,7 @@ Gen<Case> makeHistGen(const Cfg &cfg) {
     std::string labelsets = cfgGet(cfg, "labelsets", "");
 
     return gen::exec([=]() {
-        std::string cl = *gen::elementOf(classes);
+        std::string cl = *gen::resize(kNominalSize, gen::elementOf(classes));
         auto parts = splitList(cl, ':');
         HistCfg h;
         h.directed = parts[0][0] == 'D';
@@ -183,7 +191,7 @@ Gen<Case> makeHistGen(const Cfg &cfg) {
         for (auto &g : gens)
             total += g.first;
         auto gensCopy = gens;
-        Gen<Op> opg = gen::mapcat(gen::inRange<std::size_t>(0, total), [gensCopy](std::size_t r) {
+        Gen<Op> opg = gen::mapcat(gen::resize(kNominalSize, gen::inRange<std::size_t>(0, total)), [gensCopy](std::size_t r) {
             for (auto &g : gensCopy) {
                 if (r < g.first)
                     return g.second;
